@@ -234,7 +234,7 @@ fn judge(ctx: &mut Ctx, st: &Stream, case: &dyn Fn() -> Value, via: Via) -> bool
 fn spec_json(m: &MsgSpec) -> Value {
     json!({"framing": format!("{:?}", m.framing), "flags": m.htyp & 0x1f, "payload_len": m.payload.len(), "mcnt": m.mcnt,
         "seq": m.secs - 1_600_000_000, "storage_ecu": hex(&m.storage_ecu),
-        "hdr_ecu": hex(&m.hdr_ecu), "apid": hex(&m.apid), "ctid": hex(&m.ctid)})
+        "hdr_ecu": hex(&m.hdr_ecu), "apid": hex(&m.apid), "ctid": hex(&m.ctid), "verb_mstp_mtin": m.verb_mstp_mtin, "noar": m.noar})
 }
 
 fn run_stream(ctx: &mut Ctx, family: &str, msgs: Vec<MsgSpec>, garb: Vec<Vec<u8>>) {
@@ -263,12 +263,12 @@ impl Prop for C01 {
         Meta {
             id: "C01",
             level: "exploration",
-            rule: "exhaustive product: message shapes (all 32 UEH/MSBF/WEID/WSID/WTMS combinations x payload sizes {0,1,2,3,4,5,9,max} x 5 id sets (printable, NUL padded, arbitrary bytes, NUL-leading with a different storage-header ECU, all NUL) x mcnt {0,255}) x garbage runs (12 lengths x 8 contents incl. marker prefixes and a header look-alike) before/between/after x both framings x start index {0,1000}; singles, all ordered pairs of the 32 shapes, triples over a 6-shape core. Streams are built by an independent byte builder; candidates containing a marker anywhere but at a message start are rejected and counted (premise). Oracle: field-by-field equality, consecutive indices, skipped+tail = garbage, tail <= min(trailing garbage, minimal message - 1), processed <= input. Non-trivial = at least one byte was skipped.".into(),
+            rule: "exhaustive product: message shapes (all 32 UEH/MSBF/WEID/WSID/WTMS combinations x payload sizes {0,1,2,3,4,5,9,max} x 5 id sets (printable, NUL padded, arbitrary bytes, NUL-leading with a different storage-header ECU, all NUL) x mcnt {0,255}; family ext_header_bytes: all 256 message-info bytes x NOAR {0,1,3,255} for every flag set with an extended header) x garbage runs (12 lengths x 8 contents incl. marker prefixes and a header look-alike) before/between/after x both framings x start index {0,1000}; singles, all ordered pairs of the 32 shapes, triples over a 6-shape core. Streams are built by an independent byte builder; candidates containing a marker anywhere but at a message start are rejected and counted (premise). Oracle: field-by-field equality, consecutive indices, skipped+tail = garbage, tail <= min(trailing garbage, minimal message - 1), processed <= input. Non-trivial = at least one byte was skipped.".into(),
             assumptions: vec!["payload/garbage bytes come from the stated pattern sets, not all byte values".into(),
                 "serial-framed messages have no reception time in the stream; the synthesised one is not compared".into()],
             budget_s: (90, 1200),
             workers: 0,
-            required_landmarks: vec!["has_garbage", "garbage_ge_20", "serial", "storage", "leading_garbage(undetected phase)", "max_size_msg", "via_lowmark_reader", "reader_production"],
+            required_landmarks: vec!["has_garbage", "garbage_ge_20", "serial", "storage", "leading_garbage(undetected phase)", "max_size_msg", "via_lowmark_reader", "reader_production", "non_verbose_with_noar"],
         }
     }
 
@@ -301,6 +301,44 @@ impl Prop for C01 {
                             }
                         }
                     }
+                }
+            }
+        }
+        ctx.end_family(done);
+        if !done {
+            return;
+        }
+        // (a2) the two bytes of the extended header that the parser must hand on untouched: every message-info byte x
+        // argument counts, for every flag set with an extended header (the other families use verbose log info, NOAR 1)
+        ctx.begin_family("ext_header_bytes", "all 256 message-info bytes x NOAR {0,1,3,255} x 16 flag sets with extended header x payload {0,5} x 2 framings x garbage {none, 5 bytes before, 5 after}");
+        done = true;
+        'x: for fr in &framings {
+            for flags in (0u8..32).filter(|f| f & UEH != 0) {
+                for vmm in 0u16..256 {
+                    for noar in [0u8, 1, 3, 255] {
+                        for ps in [0usize, 5] {
+                            for g in 0..3 {
+                                if ctx.mine() {
+                                    let mut m = shape(fr, flags, ps, 0, 7, 1);
+                                    m.verb_mstp_mtin = vmm as u8;
+                                    m.noar = noar;
+                                    if vmm & 1 == 0 && noar != 0 {
+                                        ctx.landmark("non_verbose_with_noar");
+                                    }
+                                    let garb = match g {
+                                        0 => vec![vec![], vec![]],
+                                        1 => vec![garbage(5, 6), vec![]],
+                                        _ => vec![vec![], garbage(5, 1)],
+                                    };
+                                    run_stream(ctx, "ext_header_bytes", vec![m], garb);
+                                }
+                            }
+                        }
+                    }
+                }
+                if ctx.out_of_time() {
+                    done = false;
+                    break 'x;
                 }
             }
         }
@@ -630,6 +668,12 @@ impl Prop for C01 {
                 s.storage_ecu.copy_from_slice(&unhex(m["storage_ecu"].as_str().unwrap()));
                 s.apid.copy_from_slice(&unhex(m["apid"].as_str().unwrap()));
                 s.ctid.copy_from_slice(&unhex(m["ctid"].as_str().unwrap()));
+                if let Some(v) = m["verb_mstp_mtin"].as_u64() {
+                    s.verb_mstp_mtin = v as u8;
+                }
+                if let Some(v) = m["noar"].as_u64() {
+                    s.noar = v as u8;
+                }
                 s
             })
             .collect();
